@@ -57,6 +57,7 @@ class Loops:
         fields = []      # (ast expr of object, field name)
         events = set()
         ctx = self.ctx
+        sqlmods = self._sqlmods = set()
 
         def target(t):
             if isinstance(t, ast.Name):
@@ -90,6 +91,8 @@ class Loops:
                         target(it.optional_vars)
             elif isinstance(n, ast.Call):
                 if isinstance(n.func, ast.Attribute):
+                    if n.func.attr in ('execute', 'executemany', 'commit', 'rollback') and getattr(ctx, 'sql', None) is not None:
+                        sqlmods.add('D' if n.func.attr in ('commit', 'rollback') else 'W')
                     if n.func.attr in MUTATORS:
                         paths.append(n.func.value)
                     info = ctx.static_callee(I, n, frame)
@@ -201,6 +204,12 @@ class Loops:
                 continue
             else:
                 raise Unsupported('mutated path %s has no heap referent' % ast.unparse(p))
+        for fld in getattr(self, '_sqlmods', ()):
+            # SQL statements inside the loop: the table states of every connection may change
+            for loc, cell in list(I.st.heap.items()):
+                if isinstance(cell, HObj) and cell.extname == 'Connection':
+                    cur = cell.fields[fld]
+                    I.st.heap[loc] = I.st.heap[loc].set(fld, VMap(I.fresh('hv_' + fld, cur.th.sort), cur.th, cur.kkind, cur.vkind))
         for (oe, fname) in fields:
             obj = I.unwrap(I.ev(oe, frame))
             if not I.is_obj(obj):
